@@ -91,4 +91,75 @@ theorem cardinality_unsound_without_cardSane :
   revert this
   simp [cfgBadCard, Card.MetBy, valuesGiven]
 
+/-! ### corners where `Obeys` (Spec.lean) accepts and the handler refuses (completeness direction) -/
+
+/-- a mandatory list argument `-l` -/
+def cfgVec : Cfg :=
+  { args := [{ key := ⟨some 'l', []⟩, kind := .vecInt, vmode := .required, card := .unlimited, mandatory := true }] }
+
+theorem obeys_nil_constraints {cfg : Cfg} {inits : List DVal} {us : List Use}
+    (hm : ObeysMandatory cfg inits us) (hv : ObeysValues cfg us) (hc : ObeysCardinality cfg us)
+    (hn : ∀ d ∈ cfg.args, d.constraints = []) (hg : ObeysGlobals cfg us) : Obeys cfg inits us := by
+  refine ⟨hm, hv, hc, ?_, ?_, hg⟩
+  · intro p q u w d ks k _ _ _ _ hd hcc
+    rw [hn d (List.mem_of_getElem? hd)] at hcc; cases hcc
+  · intro p u d ks k _ hd hcc
+    rw [hn d (List.mem_of_getElem? hd)] at hcc; cases hcc
+
+/-- `-l ,` : the mandatory argument is used (with a list value without elements), every rule as
+    written in Spec.lean is obeyed, but `hasValue()` of the still empty vector is false and the
+    handler throws "mandatory argument missing" -/
+theorem mandatory_list_without_elements :
+    Obeys cfgVec [.vec []] [⟨0, [','], true⟩] ∧
+    (evalUses cfgVec (cfgVec.initState [.vec []]) [⟨0, [','], true⟩]).isThrow = true := by
+  refine ⟨obeys_nil_constraints ?_ ?_ ?_ ?_ ?_, by decide⟩
+  · intro i d hd _
+    exact Or.inl ⟨_, List.mem_cons_self, by
+      cases i with
+      | zero => rfl
+      | succ i => simp [cfgVec] at hd⟩
+  · intro u hu
+    simp only [List.mem_cons, List.not_mem_nil, or_false] at hu; subst hu
+    refine ⟨_, rfl, ?_⟩
+    intro t ht
+    have : splitSep ',' [','] = [] := by decide
+    rw [this] at ht; cases ht
+  · intro i d hd
+    cases i with
+    | zero => simp only [cfgVec, List.getElem?_cons_zero, Option.some.injEq] at hd; subst hd; trivial
+    | succ i => simp [cfgVec] at hd
+  · intro d hd; simp only [cfgVec, List.mem_cons, List.not_mem_nil, or_false] at hd; subst hd; rfl
+  · intro g hg; cases hg
+
+/-- all-of( `-a`, `--all`) where both keys are spellings of the one argument `-a,--all` -/
+def cfgAll : Cfg :=
+  { args := [{ key := ⟨some 'a', "all".toList⟩, kind := .flag, vmode := .none, card := .unlimited }],
+    globals := [{ kind := .allOf, keys := [⟨some 'a', []⟩, ⟨none, "all".toList⟩] }] }
+
+/-- `-a`: every key listed in the all-of constraint designates an argument that is used, but the
+    handler erases only the first matching key per use and refuses at the end -/
+theorem allOf_same_argument_twice :
+    Obeys cfgAll [.flag false] [⟨0, [], true⟩] ∧
+    (evalUses cfgAll (cfgAll.initState [.flag false]) [⟨0, [], true⟩]).isThrow = true := by
+  refine ⟨obeys_nil_constraints ?_ ?_ ?_ ?_ ?_, by decide⟩
+  · intro i d hd _
+    exact Or.inl ⟨_, List.mem_cons_self, by
+      cases i with
+      | zero => rfl
+      | succ i => simp [cfgAll] at hd⟩
+  · intro u hu
+    simp only [List.mem_cons, List.not_mem_nil, or_false] at hu; subst hu
+    exact ⟨_, rfl, trivial⟩
+  · intro i d hd
+    cases i with
+    | zero => simp only [cfgAll, List.getElem?_cons_zero, Option.some.injEq] at hd; subst hd; trivial
+    | succ i => simp [cfgAll] at hd
+  · intro d hd; simp only [cfgAll, List.mem_cons, List.not_mem_nil, or_false] at hd; subst hd; rfl
+  · intro g hg
+    simp only [cfgAll, List.mem_cons, List.not_mem_nil, or_false] at hg; subst hg
+    intro k hk
+    refine ⟨_, List.mem_cons_self, rfl, _, rfl, ?_⟩
+    simp only [List.mem_cons, List.not_mem_nil, or_false] at hk
+    rcases hk with rfl | rfl <;> decide
+
 end CelmaVerif.ProgArgs.RulesExample
